@@ -60,8 +60,14 @@ class St(object):
       d = lp.now() + self.dts[op[1]]
       idx = len(self.acts)
       self.ev += 1
+      # actions the worker has already taken off the queue and handed to gevent.spawn (their rounded deadline was
+      # reached) but whose greenlet has not started yet: the new action cannot be ordered before those
+      inq = set(e[1] for e in self.q._queue)
+      started = set(a['seq'] for a in self.acts
+                    if not a['runs'] and a['qseq'] not in inq and lp.now() >= a['tick'] - EPS)
       self.acts.append({'D': d, 'tick': self.tick_up(d), 't_sched': lp.now(), 'ev_sched': self.ev,
-                        'cancel': None, 'cancelled_at': None, 'runs': [], 'seq': idx})
+                        'cancel': None, 'cancelled_at': None, 'runs': [], 'seq': idx, 'started_before': started,
+                        'qseq': self.q._seq + 1})
       self.acts[idx]['cancel'] = self.q.Schedule(d, self._mk_action(idx))
       self._run(op[2])
     elif kind == 'X':
@@ -146,7 +152,7 @@ class St(object):
         ka, kb = (round(a['tick'] / self.res), a['seq']), (round(b['tick'] / self.res), b['seq'])
         if ka < kb:
           ra, rb = a['runs'][0][1], b['runs'][0][1]
-          together = a['ev_sched'] < rb and b['ev_sched'] < ra
+          together = a['ev_sched'] < rb and b['ev_sched'] < ra and b['seq'] not in a['started_before']
           if together and ra > rb:
             v.append(self._v('C10.order', 'action %d (tick %.4f) ran after action %d (tick %.4f)'
                              % (a['seq'], a['tick'] - vloop.EPOCH, b['seq'], b['tick'] - vloop.EPOCH), a['seq']))
@@ -236,9 +242,13 @@ CONFIGS = {
   ],
   'thorough': [
     ({'res': 0.01, 'dts': [-0.0125, 0.0025, 0.0125, 0.0275], 'advs': [0.005, 0.02],
-      'max_actions': 4, 'max_preempt': 2, 'preempt_depth': 4}, 8),
-    ({'res': 1, 'dts': [-0.0125, 0.0025, 0.0125, 0.0275], 'advs': [0.005, 0.02],
       'max_actions': 4, 'max_preempt': 2, 'preempt_depth': 3}, 7),
+    ({'res': 1, 'dts': [-0.0125, 0.0025, 0.0125, 0.0275], 'advs': [0.005, 0.02],
+      'max_actions': 3, 'max_preempt': 2, 'preempt_depth': 3}, 6),
+    ({'res': 0.01, 'dts': [3.5025, 400.0025, 4000.0025], 'advs': [350.0, 100.0], 'horizon': 4500.0,
+      'max_actions': 3, 'max_preempt': 1, 'preempt_depth': 1}, 7),
+    ({'res': 0.01, 'dts': [-0.0325, -0.0225, -0.0125, 0.0125], 'advs': [0.02],
+      'max_actions': 4, 'max_preempt': 2, 'preempt_depth': 2}, 7),
   ],
 }
 
